@@ -52,7 +52,8 @@ def build_tree(path: str, options: Optional[graphtage.BuildOptions] = None, *arg
     if options is None:
         options = graphtage.BuildOptions()
     csv_data = []
-    with open(path) as f:
+    with open(path, newline='') as f:
+        # newline='' as the csv module requires: otherwise \r and \r\n inside quoted cells are rewritten to \n
         for row in csv.reader(f, *args, **kwargs):
             rowdata = [json.build_tree(i, options=options) for i in row]
             for col in rowdata:
